@@ -79,6 +79,23 @@ def d1_threading(ctx):
               "the table slice handed to chunk i is not wf_flat.iloc[slices[i]]", key="cbin->chunk:wf_flat")
     sls = [n for n in walk_function(fc.node) if isinstance(n, ast.Assign) and loc_name(n.targets[0]) == "slices"]
     oks = bool(sls) and "searchsorted(wf_flat['sample'], [s0_arr[i], s1_arr[i]])" in src(sls[0].value)
+    if sls and not oks:
+        # contiguous chunks: one search over the chunk edges r_[s0_arr, ns]; chunk i owns rows [bounds[i], bounds[i + 1])
+        duc = DefUse(fc.node)
+        v = sls[0].value
+        if isinstance(v, ast.ListComp) and len(v.generators) == 1 and isinstance(v.elt, ast.Call) and call_name(v.elt) == "slice" and len(v.elt.args) == 2:
+            it = loc_name(v.generators[0].target)
+            a0, a1 = v.elt.args
+            if isinstance(a0, ast.Subscript) and isinstance(a1, ast.Subscript) and loc_name(a0.value) == loc_name(a1.value) and loc_name(a0.slice) == it \
+                    and norm(a1.slice) == norm(ast.parse(f"{it} + 1", mode="eval").body):
+                bd = expand_name(duc, a0.value, sls[0])
+                while isinstance(bd, ast.Call) and call_name(bd) in ("astype", "asarray", "array") and (bd.args or isinstance(bd.func, ast.Attribute)):
+                    bd = bd.func.value if call_name(bd) == "astype" else bd.args[0]
+                if isinstance(bd, ast.Call) and call_name(bd) == "searchsorted" and len(bd.args) == 2 and "wf_flat['sample']" in src(bd.args[0]) \
+                        and (kwarg(bd, "side") is None or const_value(kwarg(bd, "side")) == (True, "left")):
+                    edges = expand_name(duc, bd.args[1], sls[0])
+                    rng_ok = isinstance(v.generators[0].iter, ast.Call) and call_name(v.generators[0].iter) == "range"
+                    oks = rng_ok and norm(edges) == norm(ast.parse("np.r_[s0_arr, sr.ns]", mode="eval").body)
     ctx.check(oks, fc, sls[0] if sls else fc.node, sls[0] if sls else "slices", "row ranges come from searchsorted of the sorted samples at the chunk bounds",
               "chunk row ranges are not searchsorted(wf_flat['sample'], [s0, s1])", key="cbin->chunk:slices")
     return b2, dl[0]
@@ -175,6 +192,15 @@ def d3_offsets(ctx, bind_chunk, dl_call):
                 pass
         off = ev.env.get("offset")
         local = ev.env.get("sample")
+        if local is None:
+            # the chunk-local sample column written in place: pd.DataFrame({"sample": <expr>, ...})
+            for dct in find(fw.node, ast.Dict, nested=False):
+                for k_, v_ in zip(dct.keys, dct.values):
+                    if isinstance(k_, ast.Constant) and k_.value == "sample":
+                        try:
+                            local = ev.ev(v_)
+                        except Undecided:
+                            local = None
         reads = [x for x in find(fw.node, ast.Subscript, nested=False) if loc_name(x.value) == "my_sr" and isinstance(x.slice, ast.Tuple) and isinstance(x.slice.elts[0], ast.Slice)]
         if off is None or local is None or not reads:
             raise AnalysisError("write_wfs_chunk: offset / sample / snippet read not found")
@@ -269,9 +295,21 @@ def d5_gather(ctx):
                     return Poly.sym("S")
                 if isinstance(e, ast.Call) and call_name(e) == "to_numpy":
                     return self.ev(e.func.value)
+                if isinstance(e, ast.Call) and call_name(e) in ("astype", "asarray", "array", "int64", "int32") and (e.args or isinstance(e.func, ast.Attribute)):
+                    # integer casts of the sample numbers keep their values
+                    return self.ev(e.func.value if (call_name(e) == "astype" and isinstance(e.func, ast.Attribute)) else e.args[0])
                 return super().ev(e)
         try:
-            p = E().ev(sd[0].value)
+            ev_ = E()
+            # locals the column expression is written with (first = samples - trough_offset ...)
+            from sa.algebra import SymExec
+            sx_ = SymExec(ev_, on_undecided="havoc")
+            for st_ in fi.node.body:
+                if st_ is sd[0].stmt:
+                    break
+                if isinstance(st_, ast.Assign) and all(isinstance(t_, (ast.Name, ast.Tuple)) for t_ in st_.targets):
+                    sx_.step(st_)
+            p = ev_.ev(sd[0].value)
         except Undecided:
             p = None
     want = Poly.sym("S") + Poly.sym("K<spike_length_samples>") - Poly.sym("trough_offset")
@@ -281,7 +319,10 @@ def d5_gather(ctx):
     if g:
         t, v = g[0].targets[0], g[0].value
         ti = t.slice.elts[0] if isinstance(t.slice, ast.Tuple) else t.slice
-        okg = norm(v) == norm(ast.parse(f"arr[:, sind[{src(ti)}]][cind[{src(ti)}], :]", mode="eval").body)
+        okg = norm(v) in (norm(ast.parse(f"arr[:, sind[{src(ti)}]][cind[{src(ti)}], :]", mode="eval").body),
+                          norm(ast.parse(f"arr[cind[{src(ti)}], :][:, sind[{src(ti)}]]", mode="eval").body),
+                          norm(ast.parse(f"arr[cind[{src(ti)}][:, np.newaxis], sind[{src(ti)}]]", mode="eval").body),
+                          norm(ast.parse(f"arr[np.ix_(cind[{src(ti)}], sind[{src(ti)}])]", mode="eval").body))
     ctx.check(okg, fi, g[0] if g else fi.node, g[0] if g else "wfs[i]", "waveform i = arr[cind[i] rows, sind[i] columns]", "waveform i is not gathered from row i of both index tables", key="gather")
     # NaN row
     vs = [c for c in find(fi.node, ast.Call, nested=False) if call_name(c) == "vstack"]
@@ -304,6 +345,64 @@ def d5_gather(ctx):
     ctx.check(bool(fl), fm, fm.node, "np.flatnonzero(neighbors[c, :])", "neighbours are listed in ascending channel order", "neighbour order is not ascending", key="ascending")
 
 
+def _sorted_group_candidates(du, cand, at) -> bool:
+    """cand = X[L[i]:R[i]] with X the admissible spike indices ordered by unit (X = A[P], keys K = spike_clusters[A][P], P = argsort of spike_clusters[A],
+    A = where(allowed_idx)[0]) and L / R = searchsorted(K, unit_ids, side='left' / 'right'): the i-th unit's own admissible spikes."""
+    def follow(e, st):
+        """expand a Name to (value, defining stmt) once"""
+        if isinstance(e, ast.Name):
+            ds = du.strong_reaching(e.id, st)
+            if len(ds) == 1 and ds[0].kind == "assign" and ds[0].value is not None and ds[0].unpack_index is None:
+                return ds[0].value, ds[0].stmt
+        return None, None
+
+    def deep(e, st, n=6):
+        for _ in range(n):
+            v, s2 = follow(e, st)
+            if v is None:
+                return e, st
+            e, st = v, s2
+        return e, st
+    v, st = deep(cand, at, 2)
+    if not (isinstance(v, ast.Subscript) and isinstance(v.slice, ast.Slice) and v.slice.step is None and v.slice.lower is not None and v.slice.upper is not None):
+        return False
+    X = v.value
+    bounds = []
+    for bnd, side in ((v.slice.lower, "left"), (v.slice.upper, "right")):
+        b, bst = deep(bnd, st, 2)
+        if not isinstance(b, ast.Subscript):
+            return False
+        idx = b.slice
+        ss, sst = deep(b.value, bst, 3)
+        if not (isinstance(ss, ast.Call) and call_name(ss) == "searchsorted" and len(ss.args) >= 2):
+            return False
+        sd = kwarg(ss, "side")
+        sval = sd.value if isinstance(sd, ast.Constant) else "left"
+        if sval != side or loc_name(ss.args[1]) != "unit_ids":
+            return False
+        bounds.append((ss.args[0], sst, idx))
+    if norm(bounds[0][2]) != norm(bounds[1][2]):
+        return False
+    # keys and candidates are the same admissible indices under the same (stable) ordering by unit
+    K, kst = deep(bounds[0][0], bounds[0][1], 1)
+    Xv, xst = deep(X, st, 1)
+    if not (isinstance(K, ast.Subscript) and isinstance(Xv, ast.Subscript)):
+        return False
+    Pk, _ = deep(K.slice, kst, 2)
+    Px, _ = deep(Xv.slice, xst, 2)
+    if not (isinstance(Pk, ast.Call) and call_name(Pk) == "argsort" and norm(Pk) == norm(Px)):
+        return False
+    Kb, kbst = deep(K.value, kst, 2)          # spike_clusters[A]
+    Xb, xbst = deep(Xv.value, xst, 2)         # A = where(allowed_idx)[0]
+    okA = ("allowed_idx" in src(Xb)) and any(w in src(Xb) for w in ("where", "flatnonzero", "nonzero"))
+    okK = isinstance(Kb, ast.Subscript) and loc_name(Kb.value) == "spike_clusters"
+    if okK:
+        Ka, _ = deep(Kb.slice, kbst, 2)
+        okK = norm(Ka) == norm(Xb)
+    sortkey, _ = deep(Pk.args[0], kst, 2) if Pk.args else (None, None)
+    return bool(okA and okK and sortkey is not None and norm(sortkey) == norm(Kb))
+
+
 def d6_selection(ctx):
     ctx.rule("D6", "admissible spikes strictly inside the margins; per unit min(max_wf, n) draws without replacement")
     repo = ctx.repo
@@ -314,13 +413,65 @@ def d6_selection(ctx):
         raise AnchorMissing("_make_wfs_table: allowed_idx not found")
     cmps = find(ad[0].value, ast.Compare)
     got = set()
-    ev = Evaluator()
+
+    class ES(Evaluator):
+        def ev(self, e):
+            # integer casts / array views of the spike samples keep their values
+            if isinstance(e, ast.Call) and call_name(e) in ("astype", "asarray", "array", "int64", "int32", "copy") and (e.args or isinstance(e.func, ast.Attribute)):
+                return self.ev(e.func.value if (isinstance(e.func, ast.Attribute) and call_name(e) in ("astype", "copy")
+                                                and not (isinstance(e.func.value, ast.Name) and e.func.value.id in ("np", "numpy"))) else e.args[0])
+            return super().ev(e)
+    ev = ES()
+    from sa.algebra import SymExec
+    sx = SymExec(ev, on_undecided="havoc")
+    for st_ in fi.node.body:
+        if st_ is ad[0].stmt:
+            break
+        if isinstance(st_, ast.Assign) and all(isinstance(t_, (ast.Name, ast.Tuple)) for t_ in st_.targets):
+            sx.step(st_)
+    S = Poly.sym("spike_samples")
     for c in cmps:
-        if loc_name(c.left) == "spike_samples":
-            try:
-                got.add((type(c.ops[0]).__name__, ev.ev(c.comparators[0]).canon()))
-            except Undecided:
-                got.add((type(c.ops[0]).__name__, src(c.comparators[0])))
+        try:
+            d = ev.ev(c.left) - ev.ev(c.comparators[0])
+        except Undecided:
+            continue
+        k = d.coeff("spike_samples")
+        if k not in (1, -1) or "spike_samples" in (d - S * Poly.const(k)).canon():
+            continue
+        rest = -(d - S * Poly.const(k)) * Poly.const(k)     # S OP rest  (for k == +1) ; flipped operator for k == -1
+        op = type(c.ops[0]).__name__
+        if k == -1:
+            op = {"Gt": "Lt", "Lt": "Gt", "GtE": "LtE", "LtE": "GtE"}.get(op, op)
+        got.add((op, rest.canon()))
+    # signedness: spike times come from the caller and may be unsigned (uint64 is what spike sorters write): a subtraction on them before any signed cast wraps
+    # around for small values - the margin test then accepts spikes whose window starts before the recording
+    du_ = du
+    for b in find(fi.node, ast.BinOp):
+        if isinstance(b.op, ast.Sub):
+            l = b.left
+            casted = False
+            cur = l
+            for _ in range(6):
+                if isinstance(cur, ast.Call) and call_name(cur) == "astype" and cur.args and any(t in src(cur.args[0]) for t in ("int", "float")) and "uint" not in src(cur.args[0]):
+                    casted = True
+                    break
+                if isinstance(cur, ast.Call) and call_name(cur) in ("asarray", "array", "copy", "atleast_1d"):
+                    dt = kwarg(cur, "dtype")
+                    if dt is not None and "uint" not in src(dt):
+                        casted = True
+                        break
+                    cur = cur.args[0] if cur.args else (cur.func.value if isinstance(cur.func, ast.Attribute) else None)
+                    continue
+                if isinstance(cur, ast.Name) and cur.id != "spike_samples":
+                    dd = du_.strong_reaching(cur.id, b)
+                    if len(dd) == 1 and dd[0].kind == "assign" and dd[0].value is not None and dd[0].unpack_index is None:
+                        cur = dd[0].value
+                        continue
+                break
+            if not casted and loc_name(cur) == "spike_samples":
+                ctx.violation(fi, b, b, f"`{src(b)[:70]}` subtracts from the caller's spike-sample array before any signed cast: spike times stored as unsigned integers (uint64, as spike "
+                              "sorters write them) wrap around for spikes in the first samples of the recording, the margin test accepts them, and their waveforms are cut from the wrong place",
+                              key="unsigned-sub", name_free=True)
     want = {("Gt", Poly.sym("trough_offset").canon()),
             ("Lt", (Poly.sym("sr.ns") - Poly.sym("spike_length_samples") + Poly.sym("trough_offset")).canon())}
     v0 = ad[0].value
@@ -338,6 +489,13 @@ def d6_selection(ctx):
         okcand = "spike_clusters == u" in src(cand) and "allowed_idx" in src(cand)
         nsd = [d for d in du.defs if d.var == "nspikes" and d.kind == "assign"]
         okns = bool(nsd) and loc_name(c.args[0]) is not None and src(nsd[0].value) == f"{loc_name(c.args[0])}.shape[0]"
+        if not (okn and okns) and n is not None and loc_name(c.args[0]) is not None:
+            # the count written in place: min(max_wf, <candidates>.shape[0])
+            cn = loc_name(c.args[0])
+            okn = okns = norm(n) in (norm(ast.parse(f"min(max_wf, {cn}.shape[0])", mode="eval").body), norm(ast.parse(f"min({cn}.shape[0], max_wf)", mode="eval").body),
+                                     norm(ast.parse(f"min(max_wf, len({cn}))", mode="eval").body), norm(ast.parse(f"min(max_wf, {cn}.size)", mode="eval").body))
+        if not okcand:
+            okcand = _sorted_group_candidates(du, c.args[0], c)
         okc = isinstance(rep, ast.Constant) and rep.value is False and okn and okcand and okns
     ctx.check(okc, fi, ch[0] if ch else fi.node, ch[0] if ch else "rng.choice", "each unit draws min(max_wf, n admissible) distinct spikes of its own",
               "per-unit draw is not rng.choice(<unit's admissible spikes>, min(max_wf, n), replace=False)", key="choice")
